@@ -148,5 +148,52 @@ Definition tag_reads (d : list (name * dflt)) (none : nat) (t : name) : list nat
   | None => [R_KEYERROR; R_KEYERROR; R_NONE; R_NONE; R_DEFAULT; R_DEFAULT]
   end.
 
+(* ---- vocabulary of the REGENERATED Method.getSignatureString / Element tagged-value accessors /
+   ABCInterfaceClass.__method_from_function (Gen/FromFunction.v).  A Python str built by the
+   code is a list of pieces: literal text from the source, a parameter name, repr() of an object. *)
+Inductive piece := PLit (s : str) | PName (n : name) | PRepr (d : dflt).
+Definition pstr := list piece.
+Definition piece_text (names reprs : list str) (p : piece) : str :=
+  match p with PLit s => s | PName n => tbl names n | PRepr d => tbl reprs d end.
+Definition pstr_text (names reprs : list str) (p : pstr) : str := flat_map (piece_text names reprs) p.
+
+(* truth value of ``self.varargs``: None is false, a (non-empty) name is true *)
+Definition oname_truth (o : option name) : bool := match o with Some _ => true | None => false end.
+Definition oname_pstr (o : option name) : pstr := match o with Some n => [PName n] | None => [] end.
+Definition dict_has {V} (d : list (name * V)) (k : name) : bool :=
+  match dict_get d k with Some _ => true | None => false end.
+(* repr(d[k]) *)
+Definition py_getitem_repr (d : list (name * dflt)) (k : name) : pstr :=
+  match dict_get d k with Some x => [PRepr x] | None => [] end.
+(* l[-1] += x *)
+Fixpoint py_last_iadd (l : list pstr) (x : pstr) : list pstr :=
+  match l with [] => [] | [a] => [a ++ x] | a :: t => a :: py_last_iadd t x end.
+(* sep.join(l) *)
+Fixpoint py_join (sep : pstr) (l : list pstr) : pstr :=
+  match l with [] => [] | [x] => x | x :: t => x ++ sep ++ py_join sep t end.
+(* "pre%spost" % x *)
+Definition py_format1 (pre post : str) (x : pstr) : pstr := [PLit pre] ++ x ++ [PLit post].
+
+(* Element.__tagged_values: None until the first setTaggedValue, then a dict *)
+Definition tvstate := option (list (name * dflt)).
+Definition tv_truth (tv : tvstate) : bool := match tv with Some (_ :: _) => true | _ => false end.
+Definition tv_is_none (tv : tvstate) : bool := match tv with None => true | Some _ => false end.
+Definition tv_dict (tv : tvstate) : list (name * dflt) := match tv with Some d => d | None => [] end.
+(* a Python value handed to / returned by the accessors: a table object, None, or the caller's
+   default object *)
+Inductive val := VObj (d : dflt) | VNone | VSentinel.
+Inductive rd := RVal (v : val) | RKeyError.
+Definition dict_getd (d : list (name * dflt)) (k : name) (default : val) : val :=
+  match dict_get d k with Some x => VObj x | None => default end.
+Definition py_getitem (d : list (name * dflt)) (k : name) : rd :=
+  match dict_get d k with Some x => RVal (VObj x) | None => RKeyError end.
+(* the codes the driver reports (see tag_reads) *)
+Definition code_get (r : rd) : nat :=
+  match r with RVal (VObj d) => d | RVal VNone => R_NONE | RVal VSentinel => R_DEFAULT | RKeyError => R_KEYERROR end.
+Definition code_query (none : nat) (v : val) : nat :=
+  match v with VObj d => as_none none d | VNone => R_NONE | VSentinel => R_DEFAULT end.
+Definition code_query_d (v : val) : nat :=
+  match v with VObj d => d | VNone => R_NONE | VSentinel => R_DEFAULT end.
+
 (* ---- decidable equalities used by the Tie *)
 Definition pair_eqb (a b : name * dflt) : bool := Nat.eqb (fst a) (fst b) && Nat.eqb (snd a) (snd b).
